@@ -145,7 +145,7 @@ func c31(r *sim.R) *sim.Violation {
 						cancel()
 					}()
 				}
-				c := &call{client: ci, kind: kind, start: w.sc.Steps, minHeld: K}
+				c := &call{client: ci, kind: kind, start: w.sc.StepCount(), minHeld: K}
 				mu.Lock()
 				if h := len(sem); h < c.minHeld {
 					c.minHeld = h
@@ -155,7 +155,7 @@ func c31(r *sim.R) *sim.Violation {
 				mu.Unlock()
 				c.res, c.err = runner.Run(ctx, a)
 				cancel()
-				c.end = w.sc.Steps
+				c.end = w.sc.StepCount()
 				mu.Lock()
 				delete(pending, c)
 				delete(inCall, id)
